@@ -52,7 +52,7 @@ def val_of_float(x, tail=True):
 
 
 def val_text(v, rng=None):
-    """val -> decimal text as `%.15g` would print it (no exponent, trailing zeros stripped)"""
+    """val -> decimal text as `%.15g` would print it (trailing zeros stripped; exponent notation below 1e-4)"""
     s, ip, fp, t = v
     txt = f"{ip}.{fp:06d}"
     if t:
@@ -61,6 +61,12 @@ def val_text(v, rng=None):
         txt += digs
     else:
         txt = txt.rstrip("0").rstrip(".")
+    if ip == 0 and 0 < fp < 100:
+        # `%.15g` prints magnitudes below 1e-4 in exponent notation (3.21e-05): the same digits, another layout
+        frac = txt.split(".")[1].rstrip("0")
+        z = len(frac) - len(frac.lstrip("0"))
+        mant = frac[z:]
+        txt = mant[0] + ("." + mant[1:] if len(mant) > 1 else "") + f"e-{z + 1:02d}"
     return ("-" if s < 0 else "") + txt
 
 
@@ -340,8 +346,8 @@ def random_dump(rng, ncells=None, defects=()):
     anchor = pos[rng.choice(used)]
     shift_mode = rng.choice(["origin", "origin", "positive", "far"])
     if shift_mode == "origin":      # one junction lands at a tiny coordinate (1e-4..1e-3), others negative/positive
-        tx = -anchor[0] * scale + rng.choice([-1, 1]) * rng.uniform(1e-4, 9e-4)
-        ty = -anchor[1] * scale + rng.choice([-1, 1]) * rng.uniform(1e-4, 9e-4)
+        tx = -anchor[0] * scale + rng.choice([-1, 1]) * rng.choice([rng.uniform(1e-4, 9e-4), 10 ** rng.uniform(-5.9, -4.05)])
+        ty = -anchor[1] * scale + rng.choice([-1, 1]) * rng.choice([rng.uniform(1e-4, 9e-4), 10 ** rng.uniform(-5.9, -4.05)])
     elif shift_mode == "positive":
         tx, ty = rng.uniform(0, 50), rng.uniform(0, 50)
     else:
